@@ -316,4 +316,4 @@ class Gf180Walker(h.HierarchyWalker):
 
 def compile(src: h.Elaboratables) -> None:
     """Compile `src` to the Sample technology"""
-    Gf180Walker().walk(src)
+    return Gf180Walker().walk(src)
